@@ -47,6 +47,9 @@ Proof. decide equality. apply err_eq_dec. Defined.
 Definition ddl_eq_dec : forall a b : ddl, {a = b} + {a <> b}.
 Proof. dec_eq; first [ apply constr_eq_dec | apply (option_eq_dec ctype_eq_dec) | apply index_eq_dec | apply tdesc_eq_dec
                      | apply altercol_eq_dec | apply column_eq_dec ]. Defined.
+Definition adiff_eq_dec : forall a b : adiff, {a = b} + {a <> b}. Proof. dec_eq. Defined.
+Definition difft_eq_dec : forall a b : difft, {a = b} + {a <> b}.
+Proof. dec_eq; first [ apply constr_eq_dec | apply index_eq_dec | apply tdesc_eq_dec | apply column_eq_dec | apply (list_eq_dec adiff_eq_dec) ]. Defined.
 Definition kind_eq_dec : forall a b : kind, {a = b} + {a <> b}.
 Proof. decide equality; first [apply ctype_eq_dec | apply (option_eq_dec ctype_eq_dec)]. Defined.
 Definition tkind_eq_dec : forall a b : tkind, {a = b} + {a <> b}.
